@@ -87,14 +87,15 @@ is false of the model and of the C code: see the three witnesses below.
 /-- **the unterminated clause, as far as it holds**: no NUL in `dest[0..dmax]` including the cell `dest[dmax]` the
 loops look at.  The call either returns a token cut at a delimiter strictly inside the extent (state as for a
 terminated string; what is handed back describes the rest `[b+1, dest+dmax)`, again without NUL and strictly shorter),
-or it is the ESUNTERM exit: NULL returned, NULL stored through `ptr`, exactly one handler report, and no cell other than
-`dest[dmax]` modified. -/
+or it is the ESUNTERM exit: NULL returned, NULL stored through `ptr`, exactly one handler report, no cell other than
+`dest[dmax]` modified, and `dest[dmax]` keeps its value or holds NUL. -/
 theorem tok_unterm_partial (wide : Bool) (dl p n : Nat) (st : St) (hall : AllRd st) (hd : DelimOK st.data dl)
     (hp : p ≠ 0) (hz : scanLen st.data p n = n) (hend : st.data (p + n) ≠ 0)
     (hw : ∀ a, p ≤ a → a ≤ p + n → st.wr a = true) :
     ∃ o st', exec (tokBody wide dl p n) st = .ok (o, st') ∧
       ((o.ret = 0 ∧ o.ptrv = some 0 ∧ st'.events = st.events ++ [.handler .str ESUNTERM] ∧
-          (∀ x, x ≠ p + n → st'.data x = st.data x)) ∨
+          (∀ x, x ≠ p + n → st'.data x = st.data x) ∧
+          (st'.data (p + n) = st.data (p + n) ∨ st'.data (p + n) = 0)) ∨
        (∃ b, p ≤ o.ret ∧ o.ret < b ∧ b < p + n ∧ isDelim st.data dl (st.data b) = true ∧
           o.ptrv = some (b + 1) ∧ o.dmaxv = some (p + n - (b + 1)) ∧ st' = st.upd b 0)) := by
   have hnz := scanLen_full_nonzero st.data p n hz
@@ -115,9 +116,9 @@ theorem tok_unterm_partial (wide : Bool) (dl p n : Nat) (st : St) (hall : AllRd 
     have hwr : st.wr (p + n) = true := hw _ (by omega) (by omega)
     cases wide
     · refine ⟨{ ret := 0, ptrv := some 0 }, { st with events := st.events ++ [.handler .str ESUNTERM] }, ?_,
-        Or.inl ⟨rfl, rfl, rfl, fun x _ => rfl⟩⟩
+        Or.inl ⟨rfl, rfl, rfl, fun x _ => rfl, Or.inl rfl⟩⟩
       simp [untermSkip, handlerS, exec_bind]
-    · refine ⟨_, _, exec_tokUnterm _ st (hall _).1 hwr, Or.inl ⟨rfl, rfl, rfl, ?_⟩⟩
+    · refine ⟨_, _, exec_tokUnterm _ st (hall _).1 hwr, Or.inl ⟨rfl, rfl, rfl, ?_, Or.inr (by simp [St.upd])⟩⟩
       intro x hx; simp [St.upd, hx]
   · simp only [hae, if_false]
     have hfb := findE_bounds st.data dl (n - (skipD st.data dl n p - p) - 1) (skipD st.data dl n p + 1)
@@ -128,7 +129,7 @@ theorem tok_unterm_partial (wide : Bool) (dl p n : Nat) (st : St) (hall : AllRd 
     · -- the token runs to the end of the extent
       simp only [hbe, if_true]
       have hwr : st.wr (p + n) = true := hw _ (by omega) (by omega)
-      refine ⟨_, _, exec_tokUnterm _ st (hall _).1 hwr, Or.inl ⟨rfl, rfl, rfl, ?_⟩⟩
+      refine ⟨_, _, exec_tokUnterm _ st (hall _).1 hwr, Or.inl ⟨rfl, rfl, rfl, ?_, Or.inr (by simp [St.upd])⟩⟩
       intro x hx; simp [St.upd, hx]
     · -- a delimiter inside the extent ends the token
       simp only [hbe, if_false]
